@@ -138,7 +138,7 @@ pub fn twin(rng: &mut Rng, t: Tup, leap: &Leap, allow_invalid: bool) -> Tup {
 
 fn twin_any(rng: &mut Rng, t: Tup) -> Tup {
   let mut r = t;
-  match rng.below(10) {
+  match rng.below(11) {
     0 | 1 | 2 => {
       // digit re-split with equal decimal concatenation of year and month
       let s = format!("{}{}", t.y, t.m);
@@ -202,12 +202,80 @@ fn twin_any(rng: &mut Rng, t: Tup) -> Tup {
         r.y = t.y + 1;
       }
     }
+    9 => {
+      // same year, another month or day (a memo keyed by too little of its argument)
+      if rng.chance(1, 2) {
+        r.m = rng.range(1, 12);
+      } else {
+        r.d = rng.range(1, 29);
+      }
+    }
     _ => {
       let delta = *rng.pick(&[1i64, -1, 19, -19, 60, -60, 1000, -1000]);
       r.y = t.y + delta;
     }
   }
   r
+}
+
+/// A query of the same kind whose arguments collide with those of `q` under a plausible broken
+/// key function over *any* pair of adjacent arguments: undelimited decimal concatenation,
+/// `a*K + b` packing, absolute values, swapped or shifted arguments. Generic over all kinds.
+pub fn sibling(rng: &mut Rng, q: &Query) -> Query {
+  let mut a = q.args.clone();
+  if a.is_empty() {
+    return q.clone();
+  }
+  let i = rng.below(a.len() as u64) as usize;
+  let j = if i + 1 < a.len() { i + 1 } else { i };
+  match rng.below(8) {
+    0 | 1 if j != i => {
+      // digit re-split of a[i] ++ a[j]
+      let s = format!("{}{}", a[i], a[j]);
+      let mut cands: Vec<(i64, i64)> = Vec::new();
+      for p in 1..s.len() {
+        let (x, y) = s.split_at(p);
+        if x == "-" || y == "-" || y.starts_with('0') || y.starts_with("-0") {
+          continue;
+        }
+        if let (Ok(x), Ok(y)) = (x.parse::<i64>(), y.parse::<i64>()) {
+          if (x, y) != (a[i], a[j]) {
+            cands.push((x, y));
+          }
+        }
+      }
+      if !cands.is_empty() {
+        let c = *rng.pick(&cands);
+        a[i] = c.0;
+        a[j] = c.1;
+      } else {
+        a[i] += 1;
+      }
+    }
+    2 if j != i => {
+      // a*K + b packing
+      let k = *rng.pick(&[12i64, 13, 24, 25, 31, 60, 100]);
+      let d = if rng.chance(1, 2) { 1 } else { -1 };
+      a[i] += d;
+      a[j] -= d * k;
+    }
+    3 => a[i] = -a[i],
+    4 if j != i => a.swap(i, j),
+    5 => a[i] += *rng.pick(&[1i64, -1, 2, -2]),
+    6 => a[i] += *rng.pick(&[12i64, -12, 24, -24, 60, -60, 256, -256]),
+    // large offsets (truncated or modular keys) only on the first two arguments (year, month):
+    // later arguments are often step counts, and a step count of 2^32 is a legitimate request
+    // that simply takes hours to be refused
+    _ if i < 2 => a[i] = a[i].wrapping_add(*rng.pick(&[65536i64, 10000, -10000, 1 << 32])),
+    _ => a[i] += *rng.pick(&[1i64, -1, 7, -7]),
+  }
+  // the same guard for swapped / re-split arguments that landed in a step-count position
+  for k in 2..a.len() {
+    if a[k].abs() > 100_000 {
+      a[k] %= 1000;
+    }
+  }
+  Query::new(q.kind, a)
 }
 
 /// A request that must be refused, derived from a valid-looking tuple. Returns the tuple and
@@ -543,8 +611,14 @@ pub fn gen_run(rng: &mut Rng, sw: &Swarm, pool: &[Query], leap: &Leap, reset: bo
     let q: Query;
     let roll = rng.below(100);
     if !recent.is_empty() && roll < sw.reask_pct {
-      q = rng.pick(&recent).clone();
-      gs.reasks += 1;
+      let base_q = rng.pick(&recent).clone();
+      if sw.allow_invalid && rng.below(100) < sw.twin_pct / 2 {
+        q = sibling(rng, &base_q);
+        gs.twins += 1;
+      } else {
+        q = base_q;
+        gs.reasks += 1;
+      }
     } else if !pool.is_empty() && roll < sw.reask_pct + sw.pool_pct {
       q = rng.pick(pool).clone();
       gs.pool_ops += 1;
